@@ -14,6 +14,8 @@ import (
 	"sort"
 	"strconv"
 	"strings"
+	"unicode"
+	"unicode/utf8"
 
 	"github.com/benhoyt/goawk/interp"
 	"github.com/benhoyt/goawk/parser"
@@ -163,6 +165,12 @@ BEGIN {
 
 // runBatch evaluates the given cases (all of one character mode) in one AWK program.
 func runBatch(ks []*kase, chars bool) ([]string, error) {
+	return runBatchMode(ks, chars, interp.DefaultMode)
+}
+
+// runBatchMode: the same with Config.OutputMode set (CSVMode / TSVMode: print writes a CSV row;
+// printf and print-without-arguments are not affected)
+func runBatchMode(ks []*kase, chars bool, omode interp.IOMode) ([]string, error) {
 	funcs := map[string]any{
 		"OP":   func(i int) string { return ks[i].op },
 		"F":    func(i int) string { return ks[i].format },
@@ -173,7 +181,7 @@ func runBatch(ks []*kase, chars bool) ([]string, error) {
 		"XOFS": func(i int) string { return ks[i].ofs },
 		"XORS": func(i int) string { return ks[i].ors },
 	}
-	cfg := &interp.Config{Funcs: funcs, Chars: chars, Vars: []string{"N", fmt.Sprint(len(ks)), "SEP", sep}, Environ: []string{}}
+	cfg := &interp.Config{Funcs: funcs, Chars: chars, Vars: []string{"N", fmt.Sprint(len(ks)), "SEP", sep}, Environ: []string{}, OutputMode: omode}
 	rr := hx.RunAwk(probeSrc, cfg, &parser.ParserConfig{Funcs: funcs})
 	if rr.Panic != nil {
 		return nil, fmt.Errorf("panic: %v", rr.Panic)
@@ -489,6 +497,123 @@ func oracle(k *kase, impl string, rep *hx.Report) bool {
 	return false
 }
 
+// ---------------------------------------------------------------- print in CSV / TSV output mode
+
+const oraclePrintCSV = "print in CSV/TSV output mode = one row of the fields, integral numbers as integers, others by OFMT"
+
+// csvField: a field as encoding/csv writes it (RFC 4180 quoting; written independently)
+func csvField(f string, comma rune, only bool) string {
+	need := false
+	switch {
+	case f == "":
+		need = false // encoding/csv has not quoted empty fields since Go 1.4
+	case f == `\.`:
+		need = true
+	default:
+		r, _ := utf8.DecodeRuneInString(f)
+		need = strings.ContainsRune(f, comma) || strings.ContainsAny(f, "\"\r\n") || unicode.IsSpace(r)
+	}
+	if !need {
+		return f
+	}
+	return `"` + strings.ReplaceAll(f, `"`, `""`) + `"`
+}
+
+func csvWant(k *kase, comma rune) (string, bool) {
+	var items []string
+	for _, a := range k.args {
+		c := a.cval()
+		if c.hasStr {
+			if !utf8.ValidString(c.str) {
+				return "", false // encoding/csv replaces invalid UTF-8 when quoting: no demand
+			}
+			items = append(items, c.str)
+			continue
+		}
+		s, ok := numToStr(c.num, k.format)
+		if !ok || !utf8.ValidString(s) {
+			return "", false
+		}
+		items = append(items, s)
+	}
+	for i := range items {
+		items[i] = csvField(items[i], comma, len(items) == 1)
+	}
+	return strings.Join(items, string(comma)) + "\n", true
+}
+
+// csvPrintOracle runs the print cases once more in CSV and in TSV output mode
+func csvPrintOracle(ks []*kase, rep *hx.Report) {
+	for _, chars := range []bool{false, true} {
+		var sub []*kase
+		for _, k := range ks {
+			if k.op == "print" && len(k.args) > 0 && k.chars == chars {
+				sub = append(sub, k)
+			}
+		}
+		if len(sub) == 0 {
+			continue
+		}
+		for _, m := range []struct {
+			mode  interp.IOMode
+			name  string
+			comma rune
+		}{{interp.CSVMode, "csv", ','}, {interp.TSVMode, "tsv", '\t'}} {
+			out, err := runBatchMode(sub, chars, m.mode)
+			for i, k := range sub {
+				var impl string
+				if err != nil {
+					o1, e1 := runBatchMode([]*kase{k}, chars, m.mode)
+					if e1 != nil {
+						impl = canonErr(e1.Error())
+						if strings.HasPrefix(e1.Error(), "panic") {
+							impl = "panic " + e1.Error()
+						}
+					} else {
+						impl = o1[0]
+					}
+				} else {
+					impl = out[i]
+				}
+				csvOracleOne(k, m.name, m.comma, impl, rep)
+			}
+		}
+	}
+}
+
+func csvOracleOne(k *kase, mode string, comma rune, impl string, rep *hx.Report) bool {
+	want, ok := csvWant(k, comma)
+	if !ok {
+		rep.Count("oracle:no-demand")
+		return false
+	}
+	rep.SearchEvals++
+	rep.Count("print-output-mode:" + mode)
+	if impl != "ok "+hx.HexS(want) {
+		d := detail(k, "ok "+hx.HexS(want), impl)
+		d["output_mode"] = mode
+		cl := "print-" + mode
+		if strings.HasPrefix(impl, "panic") {
+			cl = "panic"
+		} else if k.format == "%g" || k.format == "%G" {
+			cl = "print-ofmt-g-no-precision"
+		} else {
+			for _, a := range k.args {
+				if c := a.cval(); !c.hasStr && c.num == math.Trunc(c.num) && math.Abs(c.num) >= 1<<63 && c.num != -(1<<63) && !math.IsInf(c.num, 0) {
+					cl = "print-integral-beyond-int64"
+				}
+			}
+		}
+		orc := oraclePrintCSV
+		if cl == "print-ofmt-g-no-precision" || cl == "print-integral-beyond-int64" {
+			orc = oraclePrint // the number-to-string conversion shared with the default mode
+		}
+		rep.Fail(hx.Failure{Class: cl, Oracle: orc, Detail: d})
+		return true
+	}
+	return false
+}
+
 // ---------------------------------------------------------------- replay
 
 func parseLine(line string) (*kase, error) {
@@ -569,6 +694,26 @@ func replay(o hx.Opts) {
 	}
 	k.expectError = true // run alone
 	rep := hx.NewReport("C09", o.Seed, o.Tier)
+	if om, _ := doc.Failure.Detail["output_mode"].(string); om != "" {
+		mode, comma := interp.CSVMode, ','
+		if om == "tsv" {
+			mode, comma = interp.TSVMode, '\t'
+		}
+		impl := ""
+		if o1, e1 := runBatchMode([]*kase{k}, k.chars, mode); e1 != nil {
+			impl = "error " + e1.Error()
+		} else {
+			impl = o1[0]
+		}
+		fmt.Printf("replay print in %s output mode\n  OFMT %q chars=%v args=%v\n  got  %s\n", om, k.format, k.chars, doc.Failure.Detail["args"], impl)
+		if csvOracleOne(k, om, comma, impl, rep) {
+			f := rep.Failures[0]
+			fmt.Printf("  want %v\n  class %s\n  oracle %s\nSTILL FAILS\n", f.Detail["want"], f.Class, f.Oracle)
+			os.Exit(1)
+		}
+		fmt.Println("passes now")
+		return
+	}
 	impl := runOne(k)
 	fmt.Printf("replay %s\n  format %q chars=%v args=%v\n  got  %s\n", k.op, k.format, k.chars, doc.Failure.Detail["args"], impl)
 	if oracle(k, impl, rep) {
@@ -659,6 +804,7 @@ func process(ks []*kase, o hx.Opts, rep *hx.Report) bool {
 			oracle(k, impl[i], rep)
 		}
 	}
+	csvPrintOracle(ks, rep)
 	return len(rep.HarnessErrors) == 0
 }
 
